@@ -57,9 +57,26 @@ pub(crate) mod stubs {
     }
 
     /// `PanicBuilder::fire` formats a message through `String`/`format!`;
-    /// only the fact that it panics is modelled.
+    /// only the fact that it panics is modelled.  The harness arms an
+    /// expectation first (see `panics_iff`): a race report the reference
+    /// forbids is an assertion failure, an expected one ends the path exactly
+    /// as the unwinding panic would.
     pub(crate) fn fire(_b: &crate::rt::location::PanicBuilder) {
-        panic!("VERIF_FIRE: causality violation (message formatting stubbed)");
+        let e = EXPECT_FIRE.with(|c| c.get());
+        assert!(
+            e != 2,
+            "VERIF: causality violation reported although the reference orders the accesses"
+        );
+        #[cfg(kani)]
+        if e == 1 {
+            kani::assume(false);
+        }
+        panic!("VERIF_FIRE: causality violation outside an armed expectation");
+    }
+
+    thread_local! {
+        /// 0 = unarmed, 1 = the reference requires the report, 2 = forbids it
+        pub(crate) static EXPECT_FIRE: std::cell::Cell<u8> = std::cell::Cell::new(0);
     }
 
     /// `dbg!` in rt/mutex.rs, rwlock.rs, mpsc.rs, notify.rs prints through
@@ -101,4 +118,41 @@ pub(crate) fn max_raw(
         i += 1;
     }
     r
+}
+
+/// Runs `f`, which may end in loom's causality-violation panic, and checks
+/// that it does so if and only if `must` (the reference's verdict).
+/// Returns None when the (expected) panic happened natively; under Kani an
+/// expected panic simply ends the path.
+pub(crate) fn panics_iff<R>(must: bool, f: impl FnOnce() -> R) -> Option<R> {
+    #[cfg(kani)]
+    {
+        stubs::EXPECT_FIRE.with(|c| c.set(if must { 1 } else { 2 }));
+        let r = f();
+        stubs::EXPECT_FIRE.with(|c| c.set(0));
+        assert!(
+            !must,
+            "VERIF: returned normally although the reference requires a causality-violation panic"
+        );
+        Some(r)
+    }
+    #[cfg(not(kani))]
+    {
+        match std::panic::catch_unwind(std::panic::AssertUnwindSafe(f)) {
+            Ok(r) => {
+                assert!(
+                    !must,
+                    "VERIF: returned normally although the reference requires a causality-violation panic"
+                );
+                Some(r)
+            }
+            Err(_) => {
+                assert!(
+                    must,
+                    "VERIF: causality violation reported although the reference orders the accesses"
+                );
+                None
+            }
+        }
+    }
 }
